@@ -7,6 +7,10 @@ HOOK_COMMITS = ["189fd6a"]
 
 # id -> (technique, level text, level note, design ref)
 CLAIMED = {
+ "C15": ("Lean 4 refinement proof (induction over operation sequences) of the transcribed PacketQueue model against a flat byte FIFO + step-by-step correspondence of the model with the real tds.PacketQueue",
+         "Proof: for every operation sequence of the reader discipline (any length, any packets) the queue's answers equal the flat byte FIFO's (same bytes across packet boundaries, not-enough-bytes exactly when too few bytes are available, rollback restores all unread bytes, discard drops no unread byte, no panic); for every sequence of writes at packet sizes 9..65535 (changing between writes) the written bytes lie in packets of the size in force, each full before the next is opened. The model is a hand transcription of packetQueue.go; the tie is the correspondence harness (random + exhaustive-short op sequences incl. undisciplined ones and panics, state compared after every op).",
+         "Trusted: Lean kernel; the correspondence harness as the tie between the hand-written model and packetQueue.go; indices modelled as Nat (no negative SetPosition), packet sizes 9..65535; the queue's mutex (no concurrent use of one queue) is not modelled.",
+         "DESIGN.md §7 C15"),
  "C20": ("Lean 4 theorems over the regenerated sql2ase/ToGo tables (go/ast extractor) + correspondence of the set-valued model with repeated evaluations of the real functions",
          "Proof: for all integers, forward translation equals the specification, ToGo has exactly one possible answer, there-and-back is the identity on supported levels; the tables and the shape of ToGo (map range vs. map index) are regenerated from isolationlevels.go on every run, so the kernel re-checks the theorems against the current source.",
          "Trusted: Lean kernel; the extractor's recognition of the two ToGo shapes (anything else is `unknown` and breaks the proof); Go map iteration order modelled as 'any entry first'; sql.IsolationLevel.String is not modelled.",
